@@ -27,7 +27,7 @@ RULE = (
     "of length >= 2, or the chain is longer than the limit. Enumerated cases are distinct by construction."
 )
 ASSUMPTIONS = [
-    "termination is decided by a deterministic event budget B = 200*(nodes+edges+2)^2 enter events per document (no wall clock)",
+    "termination is decided by a deterministic event budget B = 200*(nodes+edges+2)^2 enter events per document, 100*(nodes+edges+2) for the linear chain documents (no wall clock)",
     "exceptions other than RecursionError raised by the loader are rejections, EXCEPT the loader's own post-condition 'Schema X was not parsed' which contradicts 'every declared schema name is present'",
     "the interpreter recursion limit is the default 1000 (as under the CLI)",
 ]
@@ -60,7 +60,12 @@ def check_trace(t: graphparse.Trace, schemas: dict) -> list[Violation]:
     if t.exc is not None:
         msg = str(t.exc)
         if "was not parsed" in msg:
-            v.append(Violation(("declared_schema_missing", "postcondition_raised"), msg[:300]))
+            import re as _re
+
+            m = _re.search(r"Schema '([^']+)'", msg)
+            node = schemas.get(m.group(1)) if m else None
+            what = "pure_ref_alias" if isinstance(node, dict) and set(node) <= {"$ref", "description"} and "$ref" in node else "other_schema"
+            v.append(Violation(("declared_schema_missing", "postcondition_raised", what), msg[:300]))
         else:
             return []  # rejection
     # NOTE: surplus exit events (a clamped double exit) are not observable in the tracker's state and are not claimed by the
@@ -140,6 +145,25 @@ def chain_schemas(kind: str, length: int) -> dict:
             if i + 1 < length:
                 props["next"] = R(i + 1)
             out[f"S{i}"] = {"type": "object", "properties": props}
+        out["After"] = {"type": "object", "properties": {"z": {"type": "string"}}}
+        return out
+    if kind in ("toplevel_array_chain", "toplevel_map_chain", "mixed_container_chain", "composition_chain", "allof_anyof_chain"):
+        out = {}
+        for i in range(length):
+            last = i + 1 >= length
+            nxt = {"type": "string"} if last else R(i + 1)
+            k = kind if kind != "mixed_container_chain" else ["object", "toplevel_array_chain", "toplevel_map_chain"][i % 3]
+            if k == "toplevel_array_chain":
+                out[f"S{i}"] = {"type": "array", "items": nxt}
+            elif k == "toplevel_map_chain":
+                out[f"S{i}"] = {"type": "object", "additionalProperties": nxt}
+            elif k == "composition_chain":
+                out[f"S{i}"] = {"type": "object", "properties": {"v": {"type": "string"}, "next": nxt,
+                                                                 "alt": {"type": "object", "additionalProperties": {"oneOf": [nxt, {"type": "integer"}]}}}}
+            elif k == "allof_anyof_chain":
+                out[f"S{i}"] = {"allOf": [{"anyOf": [nxt, {"type": "integer"}]}, {"type": "object", "properties": {"v": {"type": "string"}}}]}
+            else:
+                out[f"S{i}"] = {"type": "object", "properties": {"v": {"type": "string"}, "next": nxt}}
         out["After"] = {"type": "object", "properties": {"z": {"type": "string"}}}
         return out
     raise ValueError(kind)
@@ -352,7 +376,9 @@ def evaluate(case: dict) -> list[Violation]:
     if case["kind"] == "chain":
         os.environ["PYOPENAPI_MAX_DEPTH"] = str(case["limit"])
     try:
-        t = graphparse.build(schemas, budget_for(schemas))
+        # chains are linear documents: the unchanged loader needs < 3 enter events per node for them, 100 per node is the budget
+        budget = (100 * int((budget_for(schemas) // 200) ** 0.5)) if case["kind"] == "chain" else budget_for(schemas)
+        t = graphparse.build(schemas, budget)
         v = check_trace(t, schemas)
         if case["kind"] == "raw" and not v and t.exc is None and not case.get("skip_limit_off_clause"):
             v.extend(cut_by_cycle_detection(schemas))
@@ -367,11 +393,21 @@ def evaluate(case: dict) -> list[Violation]:
                 d_inf = t_inf.max_tracker_depth
                 if marker and d_inf <= case["limit"]:
                     v.append(Violation(("depth_marker_without_excess",), f"limit={case['limit']} length={case['length']} unlimited_depth={d_inf}"))
-                if not marker and d_inf > case["limit"] + 1:
+                # (composition sub-parsers read the limit once at import time; the harness changes it per case, so the "fires exactly
+                #  when exceeded" direction is only asserted for the chain kinds that go through the per-call check)
+                if not marker and d_inf > case["limit"] + 1 and case["chain"] in ("ref_chain", "array_chain", "inline_nesting", "backref_chain"):
                     v.append(Violation(("depth_limit_never_fired",), f"limit={case['limit']} length={case['length']} unlimited_depth={d_inf} depth_with_limit={t.max_tracker_depth}"))
             after = t.context.parsed_schemas.get("After")
             if after is None or "z" not in (after.properties or {}) or getattr(after, "_max_depth_exceeded_marker", False):
                 v.append(Violation(("schema_after_deep_one_affected",), f"After={after!r}"[:300]))
+        elif case["kind"] == "chain" and t.exc is not None and not t.recursion_error and not v:
+            # the load was ABORTED with the limit in force: the limit is supposed to degrade to placeholders, so the same document
+            # must fail in the same way with the limit switched off (then it is a rejection of the document, not of the depth)
+            os.environ["PYOPENAPI_MAX_DEPTH"] = "1000000"
+            t_inf = graphparse.build(schemas, budget_for(schemas))
+            os.environ["PYOPENAPI_MAX_DEPTH"] = str(case["limit"])
+            if t_inf.exc is None and not t_inf.recursion_error and not t_inf.budget_exceeded:
+                v.append(Violation(("depth_limit_aborts_load", type(t.exc).__name__), f"limit={case['limit']} length={case['length']} chain={case['chain']}: {t.exc!r}"[:300]))
         return v
     finally:
         if old is None:
@@ -554,7 +590,8 @@ def run_shard(shard: dict) -> dict:
         return col.to_dict()
     if shard["mode"] == "chains":
         for limit in (5, 10, 50, 150):
-            for kind in ("ref_chain", "array_chain", "inline_nesting", "backref_chain"):
+            for kind in ("ref_chain", "array_chain", "inline_nesting", "backref_chain", "toplevel_array_chain", "toplevel_map_chain",
+                         "mixed_container_chain", "composition_chain", "allof_anyof_chain"):
                 lengths = {max(1, limit // 3), max(1, limit - 2), limit - 1, limit, limit + 1, limit + 2, limit + 3, 2 * limit + 5, 420}
                 if kind == "inline_nesting":
                     lengths = {l for l in lengths if l <= 150}  # deeper documents cannot be read by json/yaml loaders themselves
